@@ -461,12 +461,37 @@ func c07R3(c *Ctx, r *Report) {
 		r.fn(name)
 		var ps []string
 		n := 0
+		// the ways to a return: a return of merged values (the results of a helper written back, or a single exit
+		// the returns were gathered in) is looked at way by way
+		type retWay struct {
+			b    *ssa.BasicBlock // the block the values of this way are made in
+			to   *ssa.BasicBlock // the block it goes on to (nil: b returns itself)
+			ok   ssa.Value
+			ret  *ssa.Return
+			only bool // b has no other way out than to
+		}
+		var ways []retWay
 		for _, b := range f.Blocks {
 			ret, ok := b.Instrs[len(b.Instrs)-1].(*ssa.Return)
 			if !ok {
 				continue
 			}
 			res := unspill(b, ret)
+			var expand func(blk, to *ssa.BasicBlock, v ssa.Value, depth int)
+			expand = func(blk, to *ssa.BasicBlock, v ssa.Value, depth int) {
+				if phi, isPhi := v.(*ssa.Phi); isPhi && depth < 4 && (phi.Block() == blk || to == nil && phi.Block() == b) {
+					for i, e := range phi.Edges {
+						expand(phi.Block().Preds[i], phi.Block(), e, depth+1)
+					}
+					return
+				}
+				ways = append(ways, retWay{b: blk, to: to, ok: v, ret: ret})
+			}
+			expand(b, nil, res[1], 0)
+		}
+		for _, w := range ways {
+			b, ret := w.b, w.ret
+			res := []ssa.Value{nil, w.ok}
 			if bb, isB := constBool(res[1]); isB && bb {
 				continue // a record is returned
 			}
@@ -491,6 +516,9 @@ func c07R3(c *Ctx, r *Report) {
 				continue
 			}
 			facts := factsAt(f, b)
+			if w.to != nil {
+				facts = factsOnEdge(f, b, w.to)
+			}
 			okWhy := false
 			for _, fc := range facts {
 				// (iii) already in error
@@ -528,6 +556,19 @@ func c07R3(c *Ctx, r *Report) {
 						}) && len(b.Preds) == 1 {
 							okWhy = true
 						}
+					}
+				}
+				// the same on the way of a merged return: the way is the false edge itself
+				if pi, ok := b.Instrs[len(b.Instrs)-1].(*ssa.If); ok && w.to != nil && b.Succs[1] == w.to && b.Succs[0] != w.to {
+					if anyIn(sliceOf(pi.Cond), func(v ssa.Value) bool {
+						e, ok := v.(*ssa.Extract)
+						if !ok || e.Index != 1 {
+							return false
+						}
+						call, ok := e.Tuple.(*ssa.Call)
+						return ok && calleeNameSSA(&call.Call) == "(zlexer).Next"
+					}) {
+						okWhy = true
 					}
 				}
 			}
